@@ -106,6 +106,9 @@ func (t *Transport) Register(host string, h http.Handler) {
 type HostHooks struct {
 	Before func(r *Record) error
 	After  func(r *Record) error
+	// Rewrite may alter the response body the client of this host gets to see (the record keeps
+	// what the mint really answered): a mint, or somebody on the way, that does not play fair
+	Rewrite func(r *Record, body []byte) []byte
 }
 
 func (t *Transport) SetHooks(host string, h *HostHooks) {
@@ -232,6 +235,9 @@ func (t *Transport) RoundTrip(req *http.Request) (*http.Response, error) {
 	}
 	if t.Rewrite != nil {
 		body = t.Rewrite(rec, body)
+	}
+	if hh != nil && hh.Rewrite != nil {
+		body = hh.Rewrite(rec, body)
 	}
 	if _, strip := t.StripDLEQ.Load(host); strip && status == 200 {
 		body = stripKey(body, "dleq")
